@@ -41,6 +41,9 @@ type c20case struct {
 	defOut string
 	// noCopies: no root type or definition of the case may come out a second time under a numbered name (X_1)
 	noCopies bool
+	// wantCopies: type name -> number of declarations (X, X_1, ...) the run must contain: same-named definitions of
+	// DIFFERENT content in several schemas of one package are each declared
+	wantCopies map[string]int
 }
 
 const c20Mod = "example.com/mod"
@@ -253,6 +256,7 @@ func c20(ctx *Ctx) (*Outcome, error) {
 	cases = append(cases, c20EnumConstCases()...)
 	cases = append(cases, c20SharedIDCases()...)
 	cases = append(cases, c20TypelessRootCases()...)
+	cases = append(cases, c20SameNameDefaultCases()...)
 	n = len(cases)
 	results = make([]res, n)
 	stage.Parallel(n, func(i int) {
@@ -340,6 +344,25 @@ func c20(ctx *Ctx) (*Outcome, error) {
 				case where[0] != m.out:
 					rs.problems = append(rs.problems, fmt.Sprintf("type %s of schema %s is declared in %s, mapped output is %s", tn, f.Name, where[0], m.out))
 				}
+			}
+		}
+		for base, want := range c.wantCopies {
+			got := 0
+			for _, decls := range parsed {
+				for d := range decls {
+					tn := strings.TrimPrefix(d, "type ")
+					if !strings.HasPrefix(d, "type ") {
+						continue
+					}
+					if tn == base {
+						got++
+					} else if strings.HasPrefix(tn, base+"_") && strings.Trim(tn[len(base)+1:], "0123456789") == "" {
+						got++
+					}
+				}
+			}
+			if got != want {
+				rs.problems = append(rs.problems, fmt.Sprintf("%d schemas define a type %s of their own (different content), %d declarations %s / %s_N are emitted", want, base, got, base, base))
 			}
 		}
 		if c.noCopies {
@@ -895,6 +918,46 @@ func c20TypelessRootCases() []*c20case {
 			c.flags = append(c.flags, "--schema-package", f.ID+"="+m.pkg, "--schema-output", f.ID+"="+m.out)
 		}
 		out = append(out, c)
+	}
+	return out
+}
+
+// c20SameNameDefaultCases: two (three) schema files in ONE package and output, each with a definition `Retry` that
+// differs from the others only in a default, a title or a description next to a default: every schema's definition
+// is declared (Retry, Retry_1, ...), in every order of the arguments.
+func c20SameNameDefaultCases() []*c20case {
+	var out []*c20case
+	for v := 0; v < 6; v++ {
+		mk := func(name string, def int64, k int) *sg.SchemaFile {
+			attempts := &sg.Schema{Types: []string{"integer"}, Min: sg.Fp(0), Default: jsonx.N(def), HasDefault: true}
+			retry := &sg.Schema{Types: []string{"object"}, Props: []sg.Prop{{Name: "attempts", S: attempts}, {Name: "backoff", S: &sg.Schema{Types: []string{"string"}}}}}
+			switch v % 3 {
+			case 1:
+				retry.Title = fmt.Sprintf("Retry policy of %s", name)
+			case 2:
+				attempts.Desc = fmt.Sprintf("attempts for %s", name)
+			}
+			root := &sg.Schema{ID: "https://example.com/samename/" + name, Types: []string{"object"}, Defs: []sg.Prop{{Name: "Retry", S: retry}},
+				Props: []sg.Prop{{Name: name + "Retry", S: &sg.Schema{Ref: "#/$defs/Retry", Target: retry}}, {Name: name + "No", S: &sg.Schema{Types: []string{"integer"}}}}}
+			return &sg.SchemaFile{Path: name + ".json", Root: root, ID: root.ID, Name: name}
+		}
+		files := []*sg.SchemaFile{mk("ingest", 3, 0), mk("export", 5, 1)}
+		if v >= 3 {
+			files = append(files, mk("archive", 7, 2))
+		}
+		c := &c20case{fs: &sg.FileSet{Files: files}, maps: map[string]c20map{}, sig: fmt.Sprintf("same-name-different-default v=%d", v), noPermute: true, wantCopies: map[string]int{"Retry": len(files)}}
+		for _, f := range files {
+			c.maps[f.Name] = c20map{pkg: c20Mod + "/defpkg", out: "defpkg/default.go", rootType: f.RootType()}
+		}
+		out = append(out, c)
+		// the same files in reverse order on the command line
+		rev := *c
+		rev.fs = &sg.FileSet{}
+		for k := len(files) - 1; k >= 0; k-- {
+			rev.fs.Files = append(rev.fs.Files, files[k])
+		}
+		rev.sig += " reversed"
+		out = append(out, &rev)
 	}
 	return out
 }
